@@ -19,6 +19,9 @@ var ops = map[string]opFunc{}
 func register(name string, f opFunc) { ops[name] = f }
 
 func unhex(s string) []byte {
+	if s == "-" {
+		return []byte{}
+	}
 	b, err := hex.DecodeString(s)
 	if err != nil {
 		panic("bad hex: " + s)
@@ -26,7 +29,12 @@ func unhex(s string) []byte {
 	return b
 }
 
-func tohex(b []byte) string { return hex.EncodeToString(b) }
+func tohex(b []byte) string {
+	if len(b) == 0 {
+		return "-"
+	}
+	return hex.EncodeToString(b)
+}
 
 func atoi(s string) int {
 	n, err := strconv.Atoi(s)
